@@ -264,11 +264,28 @@ def check_cases(ctx, rep, cases, label):
         rep.case(key, nontrivial=bool(m.passes), sample={'t': case['t'], 'opts': case['opts'],
                                                           'script_t': [a['k'] for a in case['script'][case['t']]],
                                                           'impl': s} if rep.evaluations % 997 == 0 else None)
+    # solve_period(label) must behave exactly like solve_t(position of label): every 4th case also goes through it
+    sp_cases, sp_impl = [], []
+    for i, case in enumerate(cases):
+        if i % 4:
+            continue
+        pos = case['t'] + case['n'] if case['t'] < 0 else case['t']
+        pc = dict(case, t=pos)
+        s, m, tag = sc.run_impl_solve_period(pc)
+        regime = oracle(pc, m, tag, rep)
+        rep.dist[f'{label}:solve_period:{regime}'] += 1
+        rep.case(('solve_period', json.dumps(pc, sort_keys=True)), nontrivial=bool(m.passes))
+        sp_cases.append(dict(pc, loc=pos))
+        sp_impl.append(s)
     if not ctx.oracle_only:
         outs = ctx.drive([sc.line('solve_t', c) for c in cases])
         for case, a, b in zip(cases, outs, impl_out):
             if a != b:
                 rep.disagree('solve_t: model != impl', case, a, b)
+        outs = ctx.drive([sc.line('solve_period', c) for c in sp_cases])
+        for case, a, b in zip(sp_cases, outs, sp_impl):
+            if a != b:
+                rep.disagree('solve_period: model != impl', case, a, b)
 
 
 def _work(ctx, rep):
@@ -344,6 +361,11 @@ def oracle_natural(case, tag, final, calls, rec, rep):
 
 
 def replay(ctx, rep, case):
+    if 'loc' in case:
+        s, m, tag = sc.run_impl_solve_period(case)
+        oracle(case, m, tag, rep)
+        print('  impl (solve_period):', s)
+        return
     s, m, tag = sc.run_impl_solve_t(case)
     oracle(case, m, tag, rep)
     print('  impl :', s)
